@@ -203,10 +203,10 @@ NpRemovesPaired(c, L, R) ==
 
 \* --ignore-empty never pairs empty keys
 IgnoreEmptyNeverPairs(c, L, R) ==
-  c.ie => \A n \in 1..Len(PairIdx(c, L, R)) :
-            LET p == PairIdx(c, L, R)[n] IN
-            /\ \A m \in 1..Len(LF(c)) : Get(L[p[1]], LF(c)[m]) # ""
-            /\ \A m \in 1..Len(RF(c)) : Get(R[p[2]], RF(c)[m]) # ""
+  LET pi == PairIdx(c, L, R) IN
+  c.ie => \A n \in 1..Len(pi) :
+            /\ \A m \in 1..Len(LF(c)) : Get(L[pi[n][1]], LF(c)[m]) # ""
+            /\ \A m \in 1..Len(RF(c)) : Get(R[pi[n][2]], RF(c)[m]) # ""
 
 \* paired records in right-stream order, and within one right record in left-file order
 PairOrder(c, L, R) ==
